@@ -44,58 +44,95 @@ def fmt(v):
     return str(v)
 
 
-def model(ctx, rp, cfg, tag, consts, must, max_paths=None, extra_random=0):
+# Model time is in HALF TICKS (even 2n = tick n, odd 2n-1 = "1 ns before tick n", used by get_expired probes);
+# the replayer embeds it into the clock's nanosecond resolution: real(2n) = E + n*U + OFF[n] ns with per-tick
+# offsets that are whole microseconds but never whole milliseconds (so no duration between two ticks is a whole
+# number of milliseconds), and maps real time points back exactly (harness/scheduler_replay.cpp head comment).
+TIME_MAP = {"e": 10 ** 15, "u": 10 ** 6, "off": [1000 * ((n * 373 + 211) % 997 + 1) for n in range(8)]}
+# every way the API lets a client request a sleep; the replayer rotates them per call
+FORMS = ["until", "ns", "sched", "us", "hms", "ms", "us32", "s", "min", "fsec"]
+
+
+def model(ctx, rp, cfg, tag, consts, must, max_paths=None, extra_random=0, variants=None):
     """consts: the complete constant assignment (the cfg files hold quick-tier defaults for running TLC by
     hand; everything is given again here so that the header handed to the replayer always matches)"""
     def hdr(k, st0):
         return {"mode": consts["Mode"], "coro": bool(k % 2), "slots": consts["MaxSleeps"],
-                "interval": consts["Interval"], "nc": consts["NC"]}
+                "interval": consts["Interval"], "nc": consts["NC"], "tm": TIME_MAP, "forms": FORMS, "phase": k}
     # the state graphs are dense and cyclic (history-free state, ~20 calls possible in every state):
     # vlib.cover_paths needs hours on them, see tools/fastcover.py
     with fastcover.installed():
         return graph_replay(ctx, "Scheduler", "Scheduler", cfg, tag, rp, proj, header_fn=hdr, must_take=must,
                             constants={k: fmt(v) for k, v in consts.items()}, max_paths=max_paths,
-                            extra_random=extra_random, replay_timeout=600)
+                            extra_random=extra_random, replay_timeout=600 if ctx.quick else None, variants=variants)
 
 
 def base(**kw):
-    c = {"Mode": "manual", "TPs": {1, 2}, "Nows": {0, 1, 2}, "Ids": {0, 1, 2}, "CancelIds": {0, 1, 2},
+    c = {"Mode": "manual", "TPs": {2, 4}, "Nows": {1, 2, 3, 4}, "Ids": {0, 1, 2}, "CancelIds": {0, 1, 2},
          "MaxSleeps": 3, "MaxHeap": 3, "MaxOps": 0, "AllowRemove": True, "Interval": 0, "NC": 1}
     c.update(kw)
     return c
 
 
+def float_sleep_compiles():
+    """does sleep_for accept a floating point duration?  (not at the time of writing: now()+duration<double> does
+    not convert to system_clock::time_point; if a later version accepts it, the replayer exercises that form too)"""
+    import subprocess
+    src = os.path.join(vlib.BUILD, "c12_float_probe.cpp")
+    os.makedirs(vlib.BUILD, exist_ok=True)
+    with open(src, "w") as f:
+        f.write("#include <cocls/scheduler.h>\n"
+                "void probe(cocls::scheduler &s) { auto f = s.sleep_for(std::chrono::duration<double>(0.5)); (void) f; }\n")
+    cmd = ["g++", "-std=c++20", "-fsyntax-only", "-DCOCLS_VERIF", "-I" + os.path.join(vlib.VERIF, "rt/include"),
+           "-I" + os.path.join(vlib.REPO, "src"), "-I" + os.path.join(vlib.REPO, "src/cocls"), src]
+    try:
+        ok = subprocess.run(cmd, stdout=subprocess.DEVNULL, stderr=subprocess.DEVNULL, timeout=300).returncode == 0
+    except subprocess.TimeoutExpired:
+        ok = False
+    os.remove(src)
+    return ok
+
+
 def run(ctx):
+    defines = ["_GLIBCXX_ASSERTIONS"]
+    fl = float_sleep_compiles()
+    if fl:
+        defines.append("C12_FLOAT_SLEEP")
+    ctx.extra["api_forms"] = [f for f in FORMS if fl or f != "fsec"]
     rp = vlib.compile_harness(vlib.VERIF + "/harness/scheduler_replay.cpp", "scheduler_replay",
-                              sanitize=not ctx.quick, defines=["_GLIBCXX_ASSERTIONS"])
+                              sanitize=not ctx.quick, defines=defines)
     q = ctx.quick
+    # a second rotation of the API forms over the same behaviours (thorough)
+    two = None if q else [{}, {"phase": 5}]
     # (a) manual mode -------------------------------------------------------------------------
-    # wide: every identifier incl. nullptr, remove(), ties and past time points
-    wide = base() if q else base(TPs={1, 2, 3}, Nows={0, 1, 2, 3})
-    model(ctx, rp, "Scheduler_manual.cfg", "manual", wide, MANUAL_ACTIONS + ["Remove"], extra_random=100 if q else 1000)
+    # wide: every identifier incl. nullptr, remove(), ties and past time points; get_expired probes at every time
+    # point and 1 ns before it
+    wide = base() if q else base(TPs={2, 4, 6}, Nows={1, 2, 3, 4, 5, 6})
+    model(ctx, rp, "Scheduler_manual.cfg", "manual", wide, MANUAL_ACTIONS + ["Remove"], extra_random=100 if q else 1000,
+          variants=two)
     # deep: duplicates of one identifier, up to 5 pending sleeps in an array of 6
-    deep = base(TPs={1, 2}, Nows={1, 2}, Ids={1}, CancelIds={1}, MaxSleeps=5, MaxHeap=6, AllowRemove=False)
+    deep = base(TPs={2, 4}, Nows={2, 3, 4}, Ids={1}, CancelIds={1}, MaxSleeps=5, MaxHeap=6, AllowRemove=False)
     if not q:
-        deep.update(TPs={1, 2, 3}, Nows={1, 2, 3})
+        deep.update(TPs={2, 4, 6}, Nows={2, 3, 4, 6})
     model(ctx, rp, "Scheduler_manual_deep.cfg", "deep", deep, MANUAL_ACTIONS, extra_random=100 if q else 1000)
     if not q:
         # two identifiers + nullptr over a longer array (emptied entries pile up below a long-lived top)
-        model(ctx, rp, "Scheduler_manual.cfg", "manual4", base(TPs={1, 2, 3}, Nows={1, 2, 3}, Ids={0, 1}, CancelIds={0, 1},
+        model(ctx, rp, "Scheduler_manual.cfg", "manual4", base(TPs={2, 4, 6}, Nows={2, 4, 5, 6}, Ids={0, 1}, CancelIds={0, 1},
                                                                MaxSleeps=3, MaxHeap=4), MANUAL_ACTIONS + ["Remove"])
-    # interval() generator + stop token next to ordinary sleeps
-    itv = base(TPs={1, 3}, Nows={1, 2, 3}, Ids={0, 1}, CancelIds={1}, MaxSleeps=2, MaxHeap=3, AllowRemove=False, Interval=2)
+    # interval() generator (period: two ticks) + stop token next to ordinary sleeps
+    itv = base(TPs={2, 6}, Nows={2, 3, 4, 6}, Ids={0, 1}, CancelIds={1}, MaxSleeps=2, MaxHeap=3, AllowRemove=False, Interval=4)
     if not q:
         itv.update(MaxSleeps=3, MaxHeap=4)
     model(ctx, rp, "Scheduler_interval.cfg", "interval", itv, MANUAL_ACTIONS + ["IntervalCall", "IntervalStop"])
     # (b) start(awaitable), single thread, virtual time ------------------------------------------
-    st = base(Mode="start", TPs={1, 2, 3}, Nows=set(), Ids={0, 1}, CancelIds={1}, MaxSleeps=2, MaxHeap=4,
+    st = base(Mode="start", TPs={2, 4, 6}, Nows=set(), Ids={0, 1}, CancelIds={1}, MaxSleeps=2, MaxHeap=4,
               MaxOps=4, AllowRemove=False, NC=2)
-    model(ctx, rp, "Scheduler_start.cfg", "start2", st, START_ACTIONS)
-    st3 = dict(st, NC=3, MaxSleeps=3, MaxOps=5 if q else 6, TPs={1, 2})
+    model(ctx, rp, "Scheduler_start.cfg", "start2", st, START_ACTIONS, variants=two)
+    st3 = dict(st, NC=3, MaxSleeps=3, MaxOps=5 if q else 6, TPs={2, 4})
     model(ctx, rp, "Scheduler_start.cfg", "start3", st3, START_ACTIONS)
     if not q:
         # a larger space on the specification only (no replay): two identifiers, 4 sleeps pending, array of 5
-        big = base(TPs={1, 2}, Nows={1, 2}, Ids={1, 2}, CancelIds={1, 2}, MaxSleeps=4, MaxHeap=5, AllowRemove=False)
+        big = base(TPs={2, 4}, Nows={2, 4}, Ids={1, 2}, CancelIds={1, 2}, MaxSleeps=4, MaxHeap=5, AllowRemove=False)
         cfgp = os.path.join(vlib.BUILD, "C12_big.cfg")
         vlib.write_cfg(cfgp, open(os.path.join(vlib.VERIF, "spec/Scheduler/Scheduler_manual.cfg")).read(),
                        {k: fmt(v) for k, v in big.items()})
@@ -103,9 +140,13 @@ def run(ctx):
         if res.violation:
             ctx.tlc_violation(res, "Scheduler:big")
 
-    ctx.assume("time points are whole seconds from a small set (ties and past values included); identifiers from a "
-               "small set with reuse, nullptr included; at most 3-5 sleeps pending at the same time, array of at most 3-6 entries "
-               "(histories themselves are unbounded: the state graph is cyclic and every edge is replayed)")
+    ctx.assume("time points from a small set of ticks (ties and past values included) embedded into the clock's nanosecond "
+               "resolution with sub-millisecond offsets, compared exactly; get_expired probes at each time point and 1 ns before it; "
+               "identifiers from a small set with reuse, nullptr included; at most 3-5 sleeps pending at the same time, array of at "
+               "most 3-6 entries (histories themselves are unbounded: the state graph is cyclic and every edge is replayed)")
+    ctx.assume("API forms sleep_until / schedule(id,promise,tp) / sleep_for(ns, us, 32-bit us, half-ms, ms, s, min) / interval(us|ns) "
+               "rotate per call (every behaviour is replayed once, thorough: twice with different rotations), not every form on every "
+               "edge; sleep_for(floating point duration) is exercised only if the library compiles it (it does not at present)")
     ctx.assume("std::push_heap/std::pop_heap are modelled move by move after libstdc++ 12 bits/stl_heap.h; the replay compares "
                "the array order after every call, so a different standard library would show as a divergence, not pass silently")
     ctx.assume("start(awaitable): virtual time -- clock_gettime(CLOCK_REALTIME) and pthread_cond_timedwait are interposed in the "
